@@ -147,6 +147,8 @@ class AbsOps:
                 return a.mat
             raise Restart(a.chain.meet(p))
         if ctx.force_primary is not None and a.chain.key() != ctx.force_primary.key():
+            if not a.chain.absorbs(ctx.force_primary):
+                raise Restart(a.chain.meet(ctx.force_primary))
             v = mk_abstract(ctx.force_primary)
             self._materialise_primary(v)
             return self.materialise(a)
@@ -315,10 +317,6 @@ class AbsOps:
             ch = number.chain
             if not ch.mapped and ch.case is None and not ch.lws and not ch.rws and ch.D.empty():
                 q = Chain(True, D)
-                if ctx.primary is not None or ctx.force_primary is not None:
-                    a = mk_abstract(q)
-                    self.materialise(a)
-                    return a
                 return mk_abstract(q)
             number = self.materialise(number)
         if isinstance(number, AbstractStr):
@@ -354,10 +352,6 @@ class AbsOps:
             q = Chain(ch.mapped, ch.D, name, ch.lws, ch.rws)
         else:
             return None
-        if self.ctx.primary is not None or self.ctx.force_primary is not None:
-            b = mk_abstract(q)
-            self.materialise(b)
-            return b
         return mk_abstract(q)
 
     # ------------------------------------------------------------------ long strings
